@@ -67,6 +67,32 @@ Proof.
   destruct t as [n|]; [|discriminate]. cbn [get lookup]. unfold lookup_node.
   destruct (get_node n p) as [[v|cs]|]; try discriminate. now intros [= ->].
 Qed.
+(** a branch position cannot be written *)
+Lemma get_branch_add_node (n : node V) : forall p cs v,
+  get_node n p = Some (Branch cs) -> add_node n p v = None.
+Proof.
+  induction n as [x|cs0 IH] using node_ind'; intros [|k r] cs v H.
+  - discriminate.
+  - discriminate.
+  - reflexivity.
+  - rewrite get_node_branch in H. rewrite add_node_branch.
+    destruct (assoc k cs0) as [c|] eqn:E; [|discriminate].
+    rewrite Forall_forall in IH. pose proof (IH _ (assoc_In _ _ _ E) r cs v H) as Hc.
+    cbn [snd] in Hc. now rewrite Hc.
+Qed.
+
+Lemma get_branch_add (t : tree V) p cs v :
+  get t p = Some (Branch cs) -> add t p v = None.
+Proof.
+  destruct t as [n|]; [|discriminate]. cbn [get add]. intros H.
+  now rewrite (get_branch_add_node n p cs v H).
+Qed.
+
+Lemma get_none_lookup (t : tree V) p : get t p = None -> lookup t p = None.
+Proof. destruct t as [n|]; [|reflexivity]. cbn [get lookup]. unfold lookup_node. now intros ->. Qed.
+
+Lemma get_branch_lookup (t : tree V) p cs : get t p = Some (Branch cs) -> lookup t p = None.
+Proof. destruct t as [n|]; [|discriminate]. cbn [get lookup]. unfold lookup_node. now intros ->. Qed.
 End Leafs.
 
 Section TMap.
